@@ -23,7 +23,7 @@ Print Assumptions C11_facts_known.
    environment, matrix items. *)
 Theorem C11_noninterference :
   forall w P x s,
-    key_respects w -> reachable w P s ->
+    key_respects w -> p_defer_shared P = false -> reachable w P s ->
     fst (compile w P x s) = fst (compile w P x empty_shared).
 Proof. exact noninterference. Qed.
 Print Assumptions C11_noninterference.
@@ -32,22 +32,22 @@ Print Assumptions C11_noninterference.
 Theorem C11_noninterference_full_key :
   forall w P x s,
     k_sh (w_key w) = true -> k_dir (w_key w) = true -> k_env (w_key w) = true ->
-    reachable w P s ->
+    p_defer_shared P = false -> reachable w P s ->
     fst (compile w P x s) = fst (compile w P x empty_shared).
 Proof. exact (fun w P x s H1 H2 H3 => noninterference w P x s (full_key_respects w H1 H2 H3)). Qed.
 Print Assumptions C11_noninterference_full_key.
 
 (* the current tree: as soon as its extracted key has dir and env, the full statement holds for it *)
 Theorem C11_current :
-  k_dir current_key = true -> k_env current_key = true ->
+  k_dir current_key = true -> k_env current_key = true -> DeferEntrySharedWithDefinition = false ->
   forall sh os exp x s,
     reachable (current_world sh os exp) current_params s ->
     fst (compile (current_world sh os exp) current_params x s)
     = fst (compile (current_world sh os exp) current_params x empty_shared).
 Proof.
-  exact (fun H2 H3 sh os exp x s =>
+  exact (fun H2 H3 H4 sh os exp x s =>
            noninterference (current_world sh os exp) current_params x s
-                           (full_key_respects (current_world sh os exp) eq_refl H2 H3)).
+                           (full_key_respects (current_world sh os exp) eq_refl H2 H3) H4).
 Qed.
 Print Assumptions C11_current.
 
@@ -58,7 +58,7 @@ Theorem C11_partial :
     k_sh (w_key w) = true ->
     (k_dir (w_key w) = true \/ forall t d d' e, w_sh w t d e = w_sh w t d' e) ->
     (k_env (w_key w) = true \/ forall t d e e', w_sh w t d e = w_sh w t d e') ->
-    reachable w P s ->
+    p_defer_shared P = false -> reachable w P s ->
     fst (compile w P x s) = fst (compile w P x empty_shared).
 Proof. exact (fun w P x s H1 H2 H3 => noninterference w P x s (coarse_key_respects w H1 H2 H3)). Qed.
 Print Assumptions C11_partial.
@@ -100,16 +100,20 @@ Print Assumptions C11_current_refuted.
 (* ---------- the shared task definitions ---------- *)
 
 (* Full statement, for a compilation that resolves matrix refs into its own
-   copy: the shared definitions come back unchanged. *)
+   copy and hands the compiled task copies of the defer: entries: the shared
+   definitions come back unchanged. *)
 Theorem C11_no_shared_mutation :
-  forall w P x s, p_matrix_shared P = false -> s_rows (snd (compile w P x s)) = s_rows s.
+  forall w P x s,
+    p_matrix_shared P = false -> p_defer_shared P = false ->
+    s_rows (snd (compile w P x s)) = s_rows s /\ s_defers (snd (compile w P x s)) = s_defers s.
 Proof. exact no_shared_mutation. Qed.
 Print Assumptions C11_no_shared_mutation.
 
 Theorem C11_no_shared_mutation_current :
-  MatrixResolveWritesShared = false ->
-  forall w x s, s_rows (snd (compile w current_params x s)) = s_rows s.
-Proof. exact (fun H w x s => no_shared_mutation w current_params x s H). Qed.
+  MatrixResolveWritesShared = false -> DeferEntrySharedWithDefinition = false ->
+  forall w x s, s_rows (snd (compile w current_params x s)) = s_rows s /\
+                s_defers (snd (compile w current_params x s)) = s_defers s.
+Proof. exact (fun H Hd w x s => no_shared_mutation w current_params x s H Hd). Qed.
 Print Assumptions C11_no_shared_mutation_current.
 
 (* 7.17: resolveMatrixRefs as it is writes the resolved list into the shared row *)
@@ -122,8 +126,9 @@ Print Assumptions C11_shared_row_write_refuted.
 
 (* partial: compilations that do not overlap never see the row another one left *)
 Theorem C11_shared_row_sequential :
-  forall w P x c r1 r2,
-    fst (compile w P x {| s_cache := c; s_rows := r1 |}) = fst (compile w P x {| s_cache := c; s_rows := r2 |}).
+  forall w P x c r1 r2 d,
+    fst (compile w P x {| s_cache := c; s_rows := r1; s_defers := d |})
+    = fst (compile w P x {| s_cache := c; s_rows := r2; s_defers := d |}).
 Proof. exact shared_row_sequentially_harmless. Qed.
 Print Assumptions C11_shared_row_sequential.
 
@@ -143,9 +148,24 @@ Print Assumptions C11_shared_row_interleaving_refuted.
 
 (* with a private copy the read does not depend on the shared state at all: any interleaving *)
 Theorem C11_private_rows :
-  forall P x pd s s', p_matrix_shared P = false -> phase2 P x pd s = phase2 P x pd s'.
+  forall P x pd s s',
+    p_matrix_shared P = false -> p_defer_shared P = false -> phase2 P x pd s = phase2 P x pd s'.
 Proof. exact private_rows_any_interleaving. Qed.
 Print Assumptions C11_private_rows.
+
+(* a defer: entry is rendered lazily by runDeferred, INTO the entry the compiled task holds: if
+   that is the definition's own entry (no copy), the second call of a task with other vars
+   runs the first call's deferred command - already without any concurrency - and the shared
+   definition has changed *)
+Theorem C11_shared_defer_refuted :
+  forall sh ks,
+    let w := mkw sh ks [] false in
+    let s1 := snd (compile w (params_defer true) (defer_task "one") empty_shared) in
+    o_defers (fst (compile w (params_defer true) (defer_task "two") s1)) = ["cleanup one"] /\
+    o_defers (fst (compile w (params_defer true) (defer_task "two") empty_shared)) = ["cleanup two"] /\
+    s_defers s1 <> s_defers empty_shared.
+Proof. exact shared_defer_refuted. Qed.
+Print Assumptions C11_shared_defer_refuted.
 
 (* ---------- the directory of task-level sh: variables ---------- *)
 
